@@ -10,6 +10,10 @@ def tan_(x):
     return UF['tan'](x) if is_sym(x) else math.tan(x)
 
 
+def atan_(x):
+    return UF['atan'](x) if is_sym(x) else math.atan(x)
+
+
 def sqrt_(x):
     return sym_sqrt(x) if is_sym(x) else math.sqrt(x)
 
